@@ -138,6 +138,7 @@ func OptPool() []*OptDecl {
 		{Names: []string{"e", "e_1", "E"}, Multi: true},
 		{Names: []string{"i"}, Flag: true},
 		{Names: []string{"f", "force"}, Flag: true},
+		{Names: []string{"a-rather-long_option-name-with-2-digits-and_under_scores", "L"}},
 	}
 }
 
@@ -157,6 +158,29 @@ func GenProg(r *rand.Rand, cfg Cfg) *Prog {
 	apool := []*ArgDecl{{Name: "X", Multi: true}, {Name: "Y", Multi: true}, {Name: "Z_2", Multi: true}}
 	na := 1 + r.Intn(3)
 	p.Args = apool[:na]
+	if r.Intn(12) == 0 {
+		// a wide program: (almost) every option of the pool declared, simple spec (the search stays cheap)
+		p.Opts = nil
+		for _, o := range pool[:8+r.Intn(len(pool)-7)] {
+			if cfg.AllowEnv && r.Intn(5) == 0 {
+				o.EnvSet = true
+			}
+			p.Opts = append(p.Opts, o)
+		}
+		p.Args = []*ArgDecl{{Name: "A_RATHER_LONG_ARGUMENT_NAME_42", Multi: true}, apool[1]}
+		x, y := &Node{K: KArg, Arg: p.Args[0]}, &Node{K: KArg, Arg: p.Args[1]}
+		opts := &Node{K: KOptional, Kids: []*Node{{K: KAllOpts}}}
+		switch r.Intn(3) {
+		case 0:
+			p.AST = &Node{K: KSeq, Kids: []*Node{opts, {K: KRep, Kids: []*Node{x}}}}
+		case 1:
+			p.AST = &Node{K: KSeq, Kids: []*Node{opts, x, {K: KOptional, Kids: []*Node{y}}}}
+		default:
+			p.AST = &Node{K: KSeq, Kids: []*Node{x, opts, {K: KOptional, Kids: []*Node{{K: KRep, Kids: []*Node{y}}}}}}
+		}
+		p.Spec = p.AST.String()
+		return p
+	}
 	g := &specGen{r: r, p: p, allowDD: cfg.AllowDD, repIn: cfg.RepOneIn, heavy: cfg.OptHeavy}
 	p.AST = g.seq(cfg.Depth, true)
 	p.Spec = p.AST.String()
